@@ -833,3 +833,52 @@ def run(ctx: Ctx) -> None:
     ctx.floor("2.8-forwarding", 2)
     if ctx.counts.get("2.3-readers", 0) < 6:
         raise AnalysisError("fewer than 6 reader methods of the normalisation cache were recognised")
+
+
+# ---------------------------------------------------------------------------
+WITNESSES = [
+    {"name": "remove_variable-no-invalidate", "file": DSF, "old": "        self.__norm_data_is_computed = False\n        size = self._variables[name].size", "new": "        size = self._variables[name].size", "expect": "2.2"},
+    {"name": "set_upper_bound-no-invalidate", "file": DSF, "old": "        self._variables[name].upper_bound = upper_bound\n        self._add_norm_policy(name)\n        self.__norm_data_is_computed = False", "new": "        self._variables[name].upper_bound = upper_bound\n        self._add_norm_policy(name)", "expect": "2.2"},
+    {"name": "set_lower_bound-no-policy", "file": DSF, "old": "        self._variables[name].lower_bound = lower_bound\n        self._add_norm_policy(name)\n", "new": "        self._variables[name].lower_bound = lower_bound\n", "expect": "2.1"},
+    {"name": "integer-normalization-setter-no-invalidate", "file": DSF, "old": "                    self._add_norm_policy(name)\n\n            self.__norm_data_is_computed = False", "new": "                    self._add_norm_policy(name)", "expect": "2.2"},
+    {"name": "add_variable-conditional-invalidate", "file": DSF, "old": "        self._check_variable_name(name)\n        self.__norm_data_is_computed = False", "new": "        self._check_variable_name(name)\n        if value is not None:\n            self.__norm_data_is_computed = False", "expect": "2.2"},
+    {"name": "rename-no-invalidate", "file": DSF, "old": "        # the order of the variables defines the layout of the design vector.\n        self.__norm_data_is_computed = False\n", "new": "        # the order of the variables defines the layout of the design vector.\n", "expect": "2.2"},
+    {"name": "rename-no-refresh", "file": DSF, "old": "            dictionary.update(items)\n\n        self.__update_current_metadata()", "new": "            dictionary.update(items)\n", "expect": "2.4"},
+    {"name": "rename-pop-idiom", "file": DSF, "old": "            items = [\n                (new_name if name == current_name else name, value)\n                for name, value in dictionary.items()\n            ]\n            dictionary.clear()\n            dictionary.update(items)", "new": "            dictionary[new_name] = dictionary.pop(current_name)", "expect": "2.1"},
+    {"name": "rename-lazy-generator", "file": DSF, "old": "            items = [\n                (new_name if name == current_name else name, value)\n                for name, value in dictionary.items()\n            ]", "new": "            items = (\n                (new_name if name == current_name else name, value)\n                for name, value in dictionary.items()\n            )", "expect": "2.1"},
+    {"name": "rename-skips-names_to_indices", "file": DSF, "old": "            self._variables,\n            self.__names_to_indices,\n            self.__current_value,\n        ]:", "new": "            self._variables,\n            self.__current_value,\n        ]:", "expect": "2.1"},
+    {"name": "set_current_variable-no-refresh", "file": DSF, "old": "        self.__current_value[name] = current_value\n        self.__update_current_metadata()", "new": "        self.__current_value[name] = current_value", "expect": "2.4"},
+    {"name": "set_current_value-refresh-before-cast", "file": DSF, "old": "                self.__current_value[name] = value\n\n        self.__update_current_metadata()\n        if self.__current_value:", "new": "                self.__current_value[name] = value\n\n        if self.__current_value:", "expect": "2.4"},
+    {"name": "remove_variable-keeps-policy", "file": DSF, "old": "        del self.normalize[name]\n\n        if name in self.__current_value:", "new": "        if name in self.__current_value:", "expect": "2.1"},
+    {"name": "remove_variable-keeps-value", "file": DSF, "old": "        if name in self.__current_value:\n            del self.__current_value[name]\n\n        del self._variables[name]", "new": "        del self._variables[name]", "expect": "2.1"},
+    {"name": "filter_dimensions-no-policy", "file": DSF, "old": "        self._add_norm_policy(name)\n        if name in self.__current_value:\n            self.set_current_variable(", "new": "        if name in self.__current_value:\n            self.set_current_variable(", "expect": "2.1"},
+    {"name": "filter_dimensions-str-arg", "file": DSF, "old": "name, self.get_current_value([name])[dimensions]", "new": "name, self.get_current_value(name)[dimensions]", "expect": "2.6"},
+    {"name": "check_membership-lazy-cache", "file": DSF, "old": "                if not self.__norm_data_is_computed:\n                    self.__update_normalization_vars()\n\n                self.__check_membership_x_vect(x_vect)", "new": "                if self.__lower_bounds_array is None:\n                    self.__lower_bounds_array = self.get_lower_bounds()\n                    self.__upper_bounds_array = self.get_upper_bounds()\n\n                self.__check_membership_x_vect(x_vect)", "expect": "2.3"},
+    {"name": "round_vect-no-guard", "file": DSF, "old": "        if not self.__norm_data_is_computed:\n            self.__update_normalization_vars()\n\n        if self.__no_integer:\n            return x_vect", "new": "        if self.__no_integer:\n            return x_vect", "expect": "2.3"},
+    {"name": "project_into_bounds-no-guard", "file": DSF, "old": "        if not self.__norm_data_is_computed:\n            self.__update_normalization_vars()\n        if not normalized:", "new": "        if not normalized:", "expect": "2.3"},
+    {"name": "get_values-ignores-flag", "file": DSF, "old": "        if self.__norm_data_is_computed and not variable_names and not as_dict:", "new": "        if not variable_names and not as_dict:", "expect": "2.3"},
+    {"name": "shift-by-size-minus-one", "file": DSF, "old": "                    indices.start - size,\n                    indices.stop - size,", "new": "                    indices.start - size,\n                    indices.stop - size + 1,", "expect": "2.5"},
+    {"name": "shift-only-start", "file": DSF, "old": "                    indices.start - n_removed,\n                    indices.stop - n_removed,", "new": "                    indices.start - n_removed,\n                    indices.stop,", "expect": "2.5"},
+    {"name": "own-range-shifted", "file": DSF, "old": "                    indices.start,\n                    indices.stop - n_removed,", "new": "                    indices.start - n_removed,\n                    indices.stop - n_removed,", "expect": "2.5"},
+    {"name": "dimension-read-after-increment", "file": DSF, "old": "        self.__names_to_indices[name] = range(self.dimension, self.dimension + size)\n        self.dimension += size\n", "new": "        self.dimension += size\n        self.__names_to_indices[name] = range(self.dimension, self.dimension + size)\n", "expect": "2.5"},
+    {"name": "normalize-swap-ops", "file": DSF, "old": "        if minus_lb:\n            out[..., norm_inds] -= self.__lower_bounds_array[norm_inds]\n\n        if isinstance(out, sparse_classes):\n            # Construct a mask to only scale the required columns\n            column_mask = isin(out.indices, norm_inds)\n            # Scale the corresponding coefficients\n            out.data[column_mask] *= self._norm_factor_inv[out.indices][column_mask]\n        else:\n            out[..., norm_inds] *= self._norm_factor_inv[norm_inds]\n", "new": "        if isinstance(out, sparse_classes):\n            # Construct a mask to only scale the required columns\n            column_mask = isin(out.indices, norm_inds)\n            # Scale the corresponding coefficients\n            out.data[column_mask] *= self._norm_factor_inv[out.indices][column_mask]\n        else:\n            out[..., norm_inds] *= self._norm_factor_inv[norm_inds]\n\n        if minus_lb:\n            out[..., norm_inds] -= self.__lower_bounds_array[norm_inds]\n", "expect": "2.7"},
+    {"name": "normalize-uses-factor", "file": DSF, "old": "            out[..., norm_inds] *= self._norm_factor_inv[norm_inds]", "new": "            out[..., norm_inds] *= self._norm_factor[norm_inds]", "expect": "2.7"},
+    {"name": "unnormalize-sparse-uses-inverse", "file": DSF, "old": "out.data[column_mask] *= self._norm_factor[out.indices][column_mask]", "new": "out.data[column_mask] *= self._norm_factor_inv[out.indices][column_mask]", "expect": "2.7"},
+    {"name": "unnormalize-shift-unconditional", "file": DSF, "old": "        if minus_lb:\n            out[..., norm_inds] += lower_bounds[norm_inds]", "new": "        out[..., norm_inds] += lower_bounds[norm_inds]", "expect": "2.7"},
+    {"name": "unnormalize-all-components", "file": DSF, "old": "            out[..., norm_inds] *= self._norm_factor[norm_inds]", "new": "            out[...] *= self._norm_factor", "expect": "2.7"},
+    {"name": "no-zero-range-guard", "file": DSF, "old": "self._norm_factor_inv = 1.0 / where(norm_factor_is_zero, 1, self._norm_factor)", "new": "self._norm_factor_inv = 1.0 / self._norm_factor", "expect": "2.7"},
+    {"name": "factor-reversed", "file": DSF, "old": "self._norm_factor = self.__upper_bounds_array - self.__lower_bounds_array", "new": "self._norm_factor = self.__lower_bounds_array - self.__upper_bounds_array", "expect": "2.7"},
+    {"name": "no-rounding", "file": DSF, "old": "        if not self.__no_integer:\n            self.round_vect(out, copy=False)", "new": "        if self.__no_integer:\n            self.round_vect(out, copy=False)", "expect": "2.7"},
+    {"name": "round-other-components", "file": DSF, "old": "rounded_x_vect[..., are_integers] = np_round(x_vect[..., are_integers])", "new": "rounded_x_vect[..., are_integers] = np_round(x_vect[..., ~are_integers])", "expect": "2.7"},
+    {"name": "parameter-space-drops-minus_lb", "file": "algos/parameter_space.py", "old": "x_vect, minus_lb=minus_lb, no_check=no_check, out=out", "new": "x_vect, no_check=no_check, out=out", "expect": "2.8"},
+    {"name": "split-cursor-not-advanced-by-own-size", "file": "utils/data_conversion.py", "old": "        first_index += size\n\n    return result", "new": "        first_index += 1\n\n    return result", "expect": "2.9"},
+    {"name": "split-cursor-advanced-before-use", "file": "utils/data_conversion.py", "old": "        size = names_to_sizes[name]\n        indices = [slice(None)] * array.ndim", "new": "        size = names_to_sizes[name]\n        first_index += size\n        indices = [slice(None)] * array.ndim", "expect": "2.9"},
+    {"name": "convert_array_to_dict-other-order", "file": DSF, "old": "return split_array_to_dict_of_arrays(x_array, self.variable_sizes, self)", "new": "return split_array_to_dict_of_arrays(x_array, self.variable_sizes, sorted(self))", "expect": "2.9"},
+    {"name": "subclass-writes-variables", "file": "algos/parameter_space.py", "old": "    def rename_variable(  # noqa:D102\n        self,\n        current_name: str,\n        new_name: str,\n    ) -> None:\n        super().rename_variable(current_name, new_name)", "new": "    def rename_variable(  # noqa:D102\n        self,\n        current_name: str,\n        new_name: str,\n    ) -> None:\n        self._variables[new_name] = self._variables.pop(current_name)", "expect": "2."},
+]
+TWINS = [
+    {"name": "invalidate-after-edit", "file": DSF, "old": "        self._check_variable_name(name)\n        self.__norm_data_is_computed = False\n        self._variables[name] = Variable(\n            size=size,\n            type=type_,\n            lower_bound=lower_bound,\n            upper_bound=upper_bound,\n        )\n", "new": "        self._check_variable_name(name)\n        self._variables[name] = Variable(\n            size=size,\n            type=type_,\n            lower_bound=lower_bound,\n            upper_bound=upper_bound,\n        )\n        self.__norm_data_is_computed = False\n"},
+    {"name": "rename-loop-variable", "file": DSF, "old": "        for variable_name in self:\n            if variable_name == name:\n                variable_is_reached = True\n            elif variable_is_reached:\n                indices = self.__names_to_indices[variable_name]\n                # N.B. the steps of the ranges of indices are assumed equal to 1\n                self.__names_to_indices[variable_name] = range(", "new": "        for other in self:\n            if other == name:\n                variable_is_reached = True\n            elif variable_is_reached:\n                indices = self.__names_to_indices[other]\n                # N.B. the steps of the ranges of indices are assumed equal to 1\n                self.__names_to_indices[other] = range("},
+    {"name": "refresh-through-public-method", "file": DSF, "old": "        self.__check_known_variable(name)\n        self.__current_value[name] = current_value\n        self.__update_current_metadata()", "new": "        self.__check_known_variable(name)\n        self.__current_value[name] = current_value\n        self.__update_current_metadata()\n        self.__check_known_variable(name)"},
+    {"name": "guard-mirrored-order", "file": "utils/data_conversion.py", "old": "indices[dimension] = slice(first_index, first_index + size)", "new": "indices[dimension] = slice(first_index, first_index + size, None)"},
+]
